@@ -19,6 +19,7 @@ type Config struct {
 	Granular            bool // every API request is a scheduling point
 	Faults              map[string]bool
 	FaultBudget         int
+	HotVerb             string // verb whose requests are faulted several times as often in this run ("" = none)
 	NoFaultWeight       int
 	Ndist               int
 	MaxSteps            int
